@@ -3,7 +3,7 @@ package main
 // The harness's own abstract syntax (independent of /repo/ast): what the generator draws,
 // what the printer renders, and — with the positions the printer recorded — what a faithful
 // parser has to return. `dumpX` prints it in the driver's answer syntax, either with the TRUE
-// positions or with the positions the current code is known to report (D18, D19, D20, D41).
+// positions or with the positions the current code is known to report (D18, D19, D20, D61).
 
 import (
 	"fmt"
